@@ -12,6 +12,8 @@ mod c13;
 mod c14;
 mod c15;
 mod c16;
+mod c17;
+mod c19;
 mod c18;
 mod corpus;
 mod dsl;
@@ -55,6 +57,8 @@ fn main() {
         "c12" => c12::run(seed, tier, &mut w),
         "c13" => c13::run(seed, tier, &mut w),
         "c15" => c15::run(seed, tier, &mut w),
+        "c17" => c17::run(seed, tier, &mut w),
+        "c19" => c19::run(seed, tier, &mut w),
         "c06" => c06::run(seed, tier, &mut w),
         "c11" => c11::run(seed, tier, &mut w),
         "c20" => c20::run(seed, tier, &mut w),
